@@ -93,7 +93,7 @@ class _PlatypusJSONEncoder(json.JSONEncoder):
                                 "nvars": obj.problem.nvars,
                                 "nobjs": obj.problem.nobjs,
                                 "nconstrs": obj.problem.nconstrs,
-                                "function": obj.problem.function,
+                                "function": getattr(obj.problem.function, "__name__", None),
                                 "types": obj.problem.types,
                                 "directions": obj.problem.directions,
                                 "constraints": obj.problem.constraints},
